@@ -115,6 +115,9 @@ func batchFirst(fr *FuncResult, dir string, perQueryMs int) {
 			fmt.Fprintf(&b, "(assert %s)\n", a)
 		}
 		done = n
+		if o.Verdict == "proved" {
+			continue
+		}
 		fmt.Fprintf(&b, "(push)\n(assert (not %s))\n(check-sat)\n(pop)\n", Imp(o.Guard, o.Goal))
 	}
 	file := filepath.Join(dir, safeFile(fr.Key)+".batch.smt2")
@@ -148,6 +151,9 @@ func batchFirst(fr *FuncResult, dir string, perQueryMs int) {
 			continue
 		}
 		done = n
+		if o.Verdict == "proved" {
+			continue
+		}
 		if i < len(answers) && answers[i] == "unsat" {
 			o.Verdict = "proved"
 			o.Solver = "z3-5.1.0(batch)"
